@@ -12,6 +12,11 @@
   than one rounding error (see the `o1-float-tie` scenario of the harness).
 
   Go panics are `Except.error` results. Loops over parents carry fuel (tree depth is bounded by height).
+
+  HEADER-FIRST delivery (the client's normal path: client/network ProcessNewHeader = PreCheckBlock + AcceptHeader on the
+  80 header bytes, later client/main LocalAcceptBlock = CommitBlock(bl, node) on the node that exists already) is the
+  second half of this file: `header`, `commitNode`, `Op` / `step`. A node with `txCount = 0` is a header without block
+  data; `limbo` holds the entries of `BlockIndex` that are no longer reachable from the root.
 -/
 import GocoinV.Model.UtxoOps
 namespace GocoinV.ChainTree
@@ -40,6 +45,9 @@ structure Chain where
   undoFiles : List (Nat × List Rec)   -- undo/<height>  (keyed by height only, as the code)
   lastHeight : Nat                    -- Unspent.LastBlockHeight
   vcBad : Nat := 0                    -- GHOST (no counterpart in the code): connected blocks whose changes fail `validChangesB`
+  limbo : List Node := []             -- entries of BlockIndex that are NOT reachable from the root any more: the header-only
+                                      -- descendants of a block that CommitBlock refused on the tip (it unlinks the block from its
+                                      -- parent and deletes the block's own index entry only), and headers accepted below them
 deriving Repr, Inhabited
 
 -- ------------------------------------------------------------------------------------------ work
@@ -110,6 +118,21 @@ def farthest (c : Chain) : Nat → Node → Nat × Q
       let first := farthest c f c0
       let best := rest.foldl (fun acc ch =>
         let r := farthest c f ch
+        if r.2.gt acc.2 then r else acc) first
+      (best.1, best.2.add (difficulty n.bits))
+
+/-- `n.findFarthestWithData()` (fix c3d926ba): `FindFarthestNode` over the children that have block data
+    (`c.TxCount == 0 → continue`): a header-only child is skipped together with whatever hangs below it. The first
+    child WITH DATA wins ties. This is what ParseTillBlock's fall-back uses. -/
+def farthestS (c : Chain) : Nat → Node → Nat × Q
+  | 0, n => (n.id, difficulty n.bits)
+  | f + 1, n =>
+    match (n.childs.filterMap (getNode c)).filter (fun m => m.txCount != 0) with
+    | [] => (n.id, difficulty n.bits)
+    | c0 :: rest =>
+      let first := farthestS c f c0
+      let best := rest.foldl (fun acc ch =>
+        let r := farthestS c f ch
         if r.2.gt acc.2 then r else acc) first
       (best.1, best.2.add (difficulty n.bits))
 
@@ -221,12 +244,13 @@ def parseTill : Nat → Chain → Nat → Except String Chain
             let c1 := { c with store := aset nx { blk with trusted := true } c.store }
             let c2 := commitBlockTxs c1 nxt.height (nxt.height + UnwindBufLen ≥ en.height) (blk.txs.map (·.txid)) ch
             parseTill f { c2 with tip := nx } e
-/-- the tail of ParseTillBlock when `last != end`: FindFarthestNode from the root, MoveToBlock there -/
+/-- the tail of ParseTillBlock when `last != end`: the farthest node WITH DATA from the root (findFarthestWithData, fix
+    c3d926ba; before: FindFarthestNode, which also returned header-only leaves), MoveToBlock there -/
 def afterFail : Nat → Chain → Except String Chain
   | 0, _ => throw "panic:fuel"
   | f + 1, c => do
     let r ← node! c c.root
-    moveTo f c (farthest c (c.nodes.length + 1) r).1
+    moveTo f c (farthestS c (c.nodes.length + 1) r).1
 /-- `ch.MoveToBlock(dst)` -/
 def moveTo : Nat → Chain → Nat → Except String Chain
   | 0, _, _ => throw "panic:fuel"
@@ -258,11 +282,16 @@ deriving Repr, Inhabited
 inductive Outcome
   | ok | dup | later | tooDeep | rejected (e : Err) | moveFailed | panic (s : String)
   | collision    -- another block sits under the block's own 8-byte `BlockIndex` key (only `deliverIdx` returns it)
+  | noHeader     -- `commit` of a block whose header is not in BlockIndex (the client asks only for blocks of known headers)
+  | notLinking   -- `commit`: HasAllParents is false (a block between this one and the active branch has no data yet; the client parks the block)
+  | discarded    -- `commit` of a block whose node is no longer reachable from the root (the client: DiscardedBlocks)
+  | detached     -- `block` (header and data at once) whose parent is a node that is no longer reachable from the root: NOT MODELLED
 deriving Repr, Inhabited
 
 def Outcome.name : Outcome → String
   | .ok => "ok" | .dup => "dup" | .later => "later" | .tooDeep => "toodeep"
   | .rejected e => "err:" ++ e.name | .moveFailed => "movefailed" | .panic s => s | .collision => "index-collision"
+  | .noHeader => "noheader" | .notLinking => "notlinking" | .discarded => "discarded" | .detached => "detached"
 
 /-- fuel for one delivery. Between two failures ParseTillBlock connects at most (tree depth) ≤ #nodes blocks, every
     failure deletes at least one node and costs three more calls, so `(#nodes+3)²` is enough
@@ -338,6 +367,150 @@ def deliverIdx (c : Chain) (b : Block) : Chain × Outcome :=
     | none, _ => (c, .later)
     | _, none => (c, .panic "panic:nil-node")
     | some p, some t => deliverAt c b p t
+
+-- ------------------------------------------------------------------------------------------ header-first delivery
+
+/-- the entry of `BlockIndex` for `id` among the nodes that are no longer reachable from the root -/
+def inLimbo (c : Chain) (id : Nat) : Option Node := c.limbo.find? (fun n => n.id == id)
+
+/-- `ch.BlockIndex[id]` by whole id: the node and whether it is attached (reachable from the root) -/
+def lookupAll (c : Chain) (id : Nat) : Option (Node × Bool) :=
+  match getNode c id with
+  | some n => some (n, true)
+  | none => (inLimbo c id).map fun n => (n, false)
+
+/-- `ch.OnActiveBranch(dst)`: walk down from the tip until `dst` is met (true) or its height is reached (false) -/
+def onActive (c : Chain) (dst : Node) : Nat → Node → Except String Bool
+  | 0, _ => throw "panic:fuel"
+  | f + 1, top =>
+    if dst.id == top.id then pure true
+    else if dst.height ≥ top.height then pure false
+    else do
+      let p ← node! c top.parent
+      onActive c dst f p
+
+/-- `ch.HasAllParents(dst)`: climb from `dst`; true as soon as a parent is on the active branch, false as soon as a
+    parent has no data (`TxCount == 0`). The client calls CommitBlock on a node only when this is true. -/
+def hasAllParents (c : Chain) : Nat → Node → Except String Bool
+  | 0, _ => throw "panic:fuel"
+  | f + 1, dst => do
+    let p ← node! c dst.parent
+    let t ← node! c c.tip
+    if ← onActive c p (t.height + 1) t then pure true
+    else if p.txCount == 0 then pure false
+    else hasAllParents c f p
+
+/-- the tree part of PreCheckBlock (fork-depth rule) + AcceptHeader for a header ALONE, parent entry `p` found
+    (`att`: `p` is reachable from the root): a node without data (`txCount = 0`, nothing stored) -/
+def headerAt (c : Chain) (b : Block) (p t : Node) (att : Bool) : Chain × Outcome :=
+  let height := p.height + 1
+  if p.id != t.id && t.height ≥ height + MovingCheckpointDepth then (c, .tooDeep) else
+  let n : Node := { id := b.id, parent := p.id, height := height, bits := b.bits, childs := [], txCount := 0 }
+  if att then
+    let c1 := modNode c p.id fun q => { q with childs := q.childs ++ [b.id] }
+    ({ c1 with nodes := c1.nodes ++ [n] }, .ok)
+  else
+    ({ c with limbo := (c.limbo.map fun q => if q.id == p.id then { q with childs := q.childs ++ [b.id] } else q) ++ [n] }, .ok)
+
+/-- **a header alone** (client/network ProcessNewHeader: PreCheckBlock + AcceptHeader on the 80 header bytes), blocks
+    looked up by whole id. Known (attached or not) → `dup`; parent unknown → `later`; too deep → `tooDeep`; else a
+    header-only node is linked under its parent — under a parent that is itself unreachable from the root it lands in
+    `limbo`. Tip, unspent map, block store and undo files are untouched. -/
+def header (c : Chain) (b : Block) : Chain × Outcome :=
+  if (lookupAll c b.id).isSome then (c, .dup) else
+  match lookupAll c b.parent, getNode c c.tip with
+  | none, _ => (c, .later)
+  | _, none => (c, .panic "panic:nil-node")
+  | some (p, att), some t => headerAt c b p t att
+
+/-- `BlockIndex[BIdx(id)]` over ALL entries (attached nodes first, then the unreachable ones), 8-byte key -/
+def lookupAllIdx (c : Chain) (id : Nat) : Option (Node × Bool) :=
+  match lookupIdx c id with
+  | some n => some (n, true)
+  | none => (c.limbo.find? (fun n => bidx n.id == bidx id)).map fun n => (n, false)
+
+/-- `header` as the code looks blocks up (8-byte key, then the whole hash): what the oracle runs -/
+def headerIdx (c : Chain) (b : Block) : Chain × Outcome :=
+  match lookupAllIdx c b.id with
+  | some (n, _) => if n.id == b.id then (c, .dup) else (c, .collision)
+  | none =>
+    match (lookupAllIdx c b.parent).filter (fun x => x.1.id == b.parent), getNode c c.tip with
+    | none, _ => (c, .later)
+    | _, none => (c, .panic "panic:nil-node")
+    | some (p, att), some t => headerAt c b p t att
+
+/-- bookkeeping after CommitBlock refused a block ON THE TIP whose node had (header-only) descendants `dead`: the code
+    unlinks the block from its parent and deletes the block's own `BlockIndex` entry — the descendants stay in
+    `BlockIndex` with a parent pointer into the unlinked node. They are moved from `nodes` to `limbo`. -/
+def sweep (c : Chain) (dead : List Nat) : Chain :=
+  { c with nodes := c.nodes.filter (fun m => !dead.contains m.id),
+           limbo := c.limbo ++ c.nodes.filter (fun m => dead.contains m.id) }
+
+/-- `CommitBlock(bl, cur)` on a node `n` that exists already, after the client's tests -/
+def commitAt (c : Chain) (b : Block) (n : Node) : Chain × Outcome :=
+  if n.txCount != 0 then (c, .dup) else
+  match hasAllParents c (n.height + 1) n with
+  | .error s => (c, .panic s)
+  | .ok false => (c, .notLinking)
+  | .ok true =>
+    let below := (subtree c (c.nodes.length + 1) b.id).filter (· != b.id)
+    let r := commitBlock c b n.height
+    match r.2 with
+    | .rejected _ => (sweep r.1 below, r.2)
+    | _ => r
+
+/-- **the block of a known header** (client/main HandleNetBlock + LocalAcceptBlock: the node was created by
+    AcceptHeader earlier; CheckParentDiscarded, HasAllParents, then `CommitBlock(bl, node)`), blocks looked up by whole
+    id. No node → `noHeader` (or `discarded` when the entry is unreachable from the root); the node has data already →
+    `dup`; a parent without data → `notLinking`; otherwise CommitBlock: on the tip (connected, or refused and unlinked —
+    its header-only descendants go to `limbo`), or stored aside / reorganised to. -/
+def commitNode (c : Chain) (b : Block) : Chain × Outcome :=
+  match getNode c b.id with
+  | none => if (inLimbo c b.id).isSome then (c, .discarded) else (c, .noHeader)
+  | some n => commitAt c b n
+
+/-- `commitNode` through the 8-byte key: what the oracle runs -/
+def commitNodeIdx (c : Chain) (b : Block) : Chain × Outcome :=
+  match lookupAllIdx c b.id with
+  | none => (c, .noHeader)
+  | some (n, att) =>
+    if n.id != b.id then (c, .noHeader)
+    else if att then commitAt c b n else (c, .discarded)
+
+/-- the three ways a block reaches the chain -/
+inductive Op
+  | header (b : Block)    -- the header alone
+  | commit (b : Block)    -- the data of a block whose header is known
+  | block (b : Block)     -- header and data at once: CheckBlock + AcceptBlock (tools/importblocks, the RPC path)
+deriving Repr, Inhabited
+
+def Op.blk : Op → Block
+  | .header b | .commit b | .block b => b
+
+/-- one operation, blocks looked up by whole id (the definition the header-first theorems are about). `block` for a
+    block that sits in `limbo` is "already in"; `block` whose PARENT sits in `limbo` is outside the model (`detached`:
+    the code links it below the unreachable node and compares work across the gap). -/
+def step (c : Chain) : Op → Chain × Outcome
+  | .header b => header c b
+  | .commit b => commitNode c b
+  | .block b =>
+    if (inLimbo c b.id).isSome then (c, .dup)
+    else if (getNode c b.id).isNone && (getNode c b.parent).isNone && (inLimbo c b.parent).isSome then (c, .detached)
+    else deliver c b
+
+/-- `step` as the code looks blocks up: what the oracle runs -/
+def stepIdx (c : Chain) : Op → Chain × Outcome
+  | .header b => headerIdx c b
+  | .commit b => commitNodeIdx c b
+  | .block b =>
+    match lookupIdx c b.id with
+    | some _ => deliverIdx c b
+    | none =>
+      match c.limbo.find? (fun n => bidx n.id == bidx b.id) with
+      | some n => if n.id == b.id then (c, .dup) else (c, .collision)
+      | none =>
+        if (parentIdx c b.parent).isNone && ((c.limbo.find? (fun n => bidx n.id == bidx b.parent)).filter (fun p => p.id == b.parent)).isSome
+        then (c, .detached) else deliverIdx c b
 
 def init (rootId rootBits : Nat) : Chain :=
   { nodes := [{ id := rootId, parent := rootId, height := 0, bits := rootBits, childs := [], txCount := 0 }],
